@@ -313,6 +313,17 @@ func registerExterns(e *Engine) {
 		}
 		return nil
 	}
+	x["zzsym.StepDeadline"] = func(ex *Exec, caller *frame, fn *ssa.Function, args []Value) Value {
+		// bounded liveness: from here the code under test may run at most n more
+		// interpreter steps (n == 0 disarms); exceeding it is reported under label
+		n := int(args[0].(Int).C)
+		if n == 0 {
+			ex.deadlineAt = 0
+			return nil
+		}
+		ex.deadlineAt, ex.deadlineLabel = ex.steps+n, argStr(args[1])
+		return nil
+	}
 	x["zzsym.Reach"] = func(ex *Exec, caller *frame, fn *ssa.Function, args []Value) Value {
 		ex.reached[argStr(args[0])] = true
 		return nil
